@@ -82,6 +82,7 @@ func runC18(c *Check) {
 	c18Panics(c)
 	c18ProtoNil(c, pk)
 	c18StreamProofs(c)
+	c18CleanEOF(c)
 }
 
 func c18ConstInt(p *Program, pkgPath, name string) int64 {
